@@ -258,6 +258,21 @@ def Path.sendRtp (path : Path) (proto : Proto) (max : Nat) (ctx : Option Nat) (p
 def Path.sendRtcp (path : Path) (proto : Proto) (max : Nat) (ctx : Option Nat) (ver2 : Bool) (parts : List Nat) : Wire :=
   onWire proto max path.extra (path.rtcp max ctx ver2 parts)
 
+/-! ### fixed-size packets sent without a write call
+
+Over UDP the client (before PLAY) and a recording server session (at RECORD) open the firewall
+with an empty RTP packet (`rtp.Packet{Header{Version: 2}}`, 12 bytes) and an empty receiver report
+(8 bytes), encrypted when there is an outbound context (client.go `doPlay`, server_session_media.go
+`start`).  They are not checked against `MaxPacketSize`. -/
+
+def punchRtp : Option Nat → Nat
+  | none => rtpFixedHeader
+  | some m => srtpLen rtpFixedHeader m
+
+def punchRtcp : Option Nat → Nat
+  | none => 8
+  | some m => srtcpLen 8 m
+
 /-! ### start-time validation (Go `int` is 64 bits: `BitVec 64` for the bit trick) -/
 
 /-- The two checks of `Client.Start` / `Server.Start`; `none` = Start returns an error,
